@@ -4,5 +4,6 @@ import IweModel.Props.C14
 #print axioms Iwe.C14.disk_key_path_roundtrip_partial
 #print axioms Iwe.C14.edit_updates_same_note
 #print axioms Iwe.C14.definition_resolution_agrees
+#print axioms Iwe.C14.written_link_opens_the_note
 #print axioms Iwe.C14.definition_above_root_counterexample
 #print axioms Iwe.C14.md_md_counterexample
